@@ -79,6 +79,8 @@ def rand_value(rng, dtype, hostile=0.5):
         s = rand_text(rng, hostile)
         return s if rng.random() < 0.5 else s + "\n" + rand_text(rng, hostile)
     if dtype == "int":
+        if rng.random() < 0.04:
+            return rng.choice([True, False])      # booleans are numbers for the API: stored as 1 / 0
         return rng.choice(INTS) if rng.random() < 0.5 else rng.randrange(-1000, 1000)
     if dtype == "float":
         if rng.random() < 0.04:
